@@ -121,6 +121,57 @@ def run(ctx):
             else:
                 w1.undecided('%s:wrapper-shape:parse_%s%s' % (API, g, suf), where(f),
                              '%s is not of the form let (text, defines) = %s(..)?; parse_%s_pp(text, defines, allow_incomplete)' % (f['name'], pp_name, g))
+    # ---- W2: the mode flag is used for nothing but the choice of the entry.  In every façade function that has a parameter
+    # `allow_incomplete`, each occurrence of the name is (a) an argument in the position of a callee's own `allow_incomplete`
+    # parameter, or (b) the (possibly negated) condition of an `if`.  Any other use — an operand of an expression, the
+    # initialiser of another value, an argument in another position — lets the flag change what is preprocessed or parsed,
+    # so that the two modes would differ in more than the grammar entry.
+    def _flag_uses(node, parent, slot, idx, out):
+        if isinstance(node, dict):
+            if node.get('k') == 'path' and node.get('p') == 'allow_incomplete':
+                out.append((node, parent, slot, idx))
+            for k_, v_ in node.items():
+                if isinstance(v_, dict):
+                    _flag_uses(v_, node, k_, None, out)
+                elif isinstance(v_, list):
+                    for j_, x_ in enumerate(v_):
+                        _flag_uses(x_, node, k_, j_, out)
+
+    flag_fns = 0
+    for n_, f_ in sorted(fns.items()):
+        pnames = [sx.pat_idents(p_['pat'])[0] for p_ in f_['sig']['params'] if p_.get('k') == 'typed']
+        if 'allow_incomplete' not in pnames or not f_.get('body'):
+            continue
+        flag_fns += 1
+        uses = []
+        _flag_uses(f_['body'], None, None, None, uses)
+        w2.inst('flag-uses:%s' % n_, {'uses': len(uses)})
+        rebinds = [st_ for st_ in sx.walk(f_['body']) if st_.get('k') == 'let' and 'allow_incomplete' in [x for x in sx.pat_idents(st_['pat']) if x]]
+        if rebinds:
+            w2.fail('%s:%s:mode-flag-rebound' % (API, n_), '%s/%s:%s' % (API, FILE, rebinds[0].get('l') or f_['l']),
+                    '%s re-binds `allow_incomplete`: the entry is then chosen by something else than the caller\'s flag' % n_)
+        for node, parent, slot, idx in uses:
+            ok = False
+            if parent is not None and parent.get('k') == 'call' and slot == 'args' and sx.is_path(parent['f']):
+                cal = parent['f']['p'].split('::')[-1]
+                if cal in fns:
+                    cp = [sx.pat_idents(p_['pat'])[0] for p_ in fns[cal]['sig']['params'] if p_.get('k') == 'typed']
+                    ok = idx < len(cp) and cp[idx] == 'allow_incomplete'
+                    if not ok:
+                        w2.fail('%s:%s:mode-flag-misused' % (API, n_), '%s/%s:%s' % (API, FILE, node.get('l') or f_['l']),
+                                '%s passes `allow_incomplete` to %s as its parameter `%s`: the mode flag then changes something else than the grammar entry, so the two modes differ '
+                                'in more than the entry (C15: where strict mode accepts, both modes must return the same tree)' % (n_, cal, cp[idx] if idx < len(cp) else '?'))
+                    continue
+            if parent is not None and parent.get('k') == 'if' and slot == 'c':
+                ok = True
+            if parent is not None and parent.get('k') == 'unary' and parent.get('op') == '!':
+                ok = True      # judged by the switch rule below
+            if not ok:
+                w2.fail('%s:%s:mode-flag-misused' % (API, n_), '%s/%s:%s' % (API, FILE, node.get('l') or f_['l']),
+                        '%s uses `allow_incomplete` in `%s` (%s): the mode flag may only choose the grammar entry; here it also changes what is preprocessed or parsed, so '
+                        'the two modes differ in more than the entry (C15: where strict mode accepts, both modes must return the same tree)'
+                        % (n_, sq(parent)[:60] if parent else '?', parent.get('k') if parent else '?'))
+    w2.floor('functions_with_mode_flag', flag_fns, 6)
     # ---- W2 / W3 / W4 on parse_*_pp
     g_rules = ctx.grammar
     for g in names:
